@@ -154,6 +154,28 @@ def low_fd_limit():
     return ok
 
 
+def abandoned_big_results():
+    """a call whose iteration is given up after a few results, the rest (large ones) is never read; then the context is left:
+    leaving must not wait for somebody to read them"""
+    ok = True
+    for factory in (False, True):
+        pool = make_pool(factory, 2, 3 if factory else None, name="big_results")
+        with pool:
+            it = pool.imap(iter(range(12)), 1)
+            first = [next(it)[0], next(it)[0]]
+            del it
+            # the pool is still usable for a complete call? (not required: an abandoned call may leave chunks behind) — only
+            # leaving the context is required to work
+        if first != [0, 1]:
+            print(f"WRONG abandoned_big_results: the first results were {first}")
+            ok = False
+        alive = [p.wid for p in pool.procs if p.exitcode is None]
+        if alive:
+            print(f"WRONG abandoned_big_results: the context was left, workers {alive} have not exited (factory={factory})")
+            ok = False
+    return ok
+
+
 def other_start_methods():
     """pools whose workers are started by the forkserver / by spawn (the worker's parent process is then not the process that
     created the worker object), over an input that pauses for more than a second between items and before its end"""
@@ -208,7 +230,7 @@ SpawnWorker = _ctx_worker("spawn")
 SpawnWorker.__name__ = SpawnWorker.__qualname__ = "SpawnWorker"
 
 
-EXTRA = {"other_start_methods": other_start_methods, "two_pools_interleaved": two_pools_interleaved, "from_thread": from_thread, "low_fd_limit": low_fd_limit}
+EXTRA = {"abandoned_big_results": abandoned_big_results, "other_start_methods": other_start_methods, "two_pools_interleaved": two_pools_interleaved, "from_thread": from_thread, "low_fd_limit": low_fd_limit}
 
 
 def main(name):
